@@ -36,17 +36,20 @@ deriving Repr, Inhabited
 
 /-! ## bitwise operators on the infinite two's-complement expansion -/
 
-/-- generic bitwise combination of two integers: works on the magnitudes of `x` resp.
-    `-x-1` with `Nat.bitwise` and flips the result when `f` maps the two sign bits to 1. -/
-def intBitwise (f : Bool → Bool → Bool) (x y : Int) : Int :=
-  let nx := decide (x < 0)
-  let ny := decide (y < 0)
-  let a : Nat := if nx then (-x - 1).toNat else x.toNat
-  let b : Nat := if ny then (-y - 1).toNat else y.toNat
+/-- magnitude of the non-negative member of `{x, -x-1}` -/
+def mag (x : Int) : Nat := if x < 0 then (-x - 1).toNat else x.toNat
+
+/-- combination of two sign/magnitude views: `Nat.bitwise` on the magnitudes with the
+    signs folded into the bit function, result flipped when `f` maps the sign bits to 1 -/
+def bitwiseCore (f : Bool → Bool → Bool) (nx ny : Bool) (a b : Nat) : Int :=
   let s := f nx ny
-  let g : Bool → Bool → Bool := fun p q => (f (p != nx) (q != ny)) != s
-  let r := Nat.bitwise g a b
+  let r := Nat.bitwise (fun p q => (f (p != nx) (q != ny)) != s) a b
   if s then -(r : Int) - 1 else (r : Int)
+
+/-- generic bitwise combination of two integers on their infinite two's-complement
+    expansions (what `num_bigint`'s `&`, `|`, `^` compute) -/
+def intBitwise (f : Bool → Bool → Bool) (x y : Int) : Int :=
+  bitwiseCore f (decide (x < 0)) (decide (y < 0)) (mag x) (mag y)
 
 def intAnd (x y : Int) : Int := intBitwise (· && ·) x y
 def intOr (x y : Int) : Int := intBitwise (· || ·) x y
